@@ -344,16 +344,20 @@ func (o *Obligation) Script(produceModels bool) string {
 				inv = and(sx("<=", lo, sel), sx("<=", sel, hi))
 			}
 		case *types.Interface:
-			inv = implies(eq(sx("i_dyn", sel), "T_nil"), eq(sx("i_val", sel), "any_nil"))
-			if bound != "" && vc.enc.boxes["Loc"] {
+			// only for unexported repo interfaces whose implementers are all pointers (propertySet):
+			// a pointer stored in such a cell points to an allocated object. Typing axioms on every
+			// interface heap proved far too expensive (thousands of useless instances).
+			nm, isNamed := t.(*types.Named)
+			if bound != "" && vc.enc.boxes["Loc"] && isNamed && nm.Obj().Pkg() != nil && vc.w.isRepoPkg(nm.Obj().Pkg()) && !nm.Obj().Exported() && u.NumMethods() > 0 {
 				var ptrs []string
 				for _, tn := range vc.enc.typeOrder {
-					if _, isPtr := vc.enc.typeConsts[tn].Underlying().(*types.Pointer); isPtr {
+					gt := vc.enc.typeConsts[tn]
+					if _, isPtr := gt.Underlying().(*types.Pointer); isPtr && types.Implements(gt, u) {
 						ptrs = append(ptrs, eq(sx("i_dyn", sel), tn))
 					}
 				}
 				if len(ptrs) > 0 {
-					inv = and(inv, implies(or(ptrs...), sx("<", sx("l_base", sx("unbox_Loc", sx("i_val", sel))), bound)))
+					inv = implies(or(ptrs...), sx("<", sx("l_base", sx("unbox_Loc", sx("i_val", sel))), bound))
 				}
 			}
 		case *types.Pointer, *types.Map:
@@ -362,7 +366,17 @@ func (o *Obligation) Script(produceModels bool) string {
 			}
 		}
 		if inv != "" && inv != "true" {
-			fmt.Fprintf(&b, "(assert (forall ((l!t Loc)) (! %s :pattern (%s))))\n", inv, sel)
+			// demand-driven triggers: fire only where a component of the cell is already being looked at
+			pats := ":pattern (" + sel + ")"
+			switch t.Underlying().(type) {
+			case *types.Slice:
+				pats = fmt.Sprintf(":pattern ((s_len %s)) :pattern ((s_cap %s)) :pattern ((s_arr %s)) :pattern ((s_off %s))", sel, sel, sel, sel)
+			case *types.Interface:
+				pats = fmt.Sprintf(":pattern ((unbox_Loc (i_val %s)))", sel)
+			case *types.Pointer, *types.Map:
+				pats = fmt.Sprintf(":pattern ((l_base %s))", sel)
+			}
+			fmt.Fprintf(&b, "(assert (forall ((l!t Loc)) (! %s %s)))\n", inv, pats)
 		}
 	}
 	for _, a := range vc.axiomAsserts {
